@@ -9,5 +9,5 @@ git -C /repo apply "$P" || { echo "patch does not apply" >&2; exit 2; }
 trap 'git -C /repo checkout -- . ' EXIT
 for id in "$@"; do
   out=$(./check "$id" quick --no-evidence 2>&1); rc=$?
-  echo "== $id rc=$rc"; echo "$out" | grep -E 'violated|VIOLATION|HARNESS|KNOWN' | cut -c1-260 | head -6
+  echo "== $id rc=$rc"; echo "$out" | grep -E 'violated|VIOLATION|HARNESS|KNOWN' | cut -c1-260 | head -40
 done
